@@ -35,6 +35,8 @@ pub fn alphabet() -> (Vec<Stmt>, Vec<Block>) {
         Stmt::Let("Q".into(), bin(BinOp::Add, q(), lit(1))),
         Stmt::Let("a".into(), bin(BinOp::Add, name("a"), q())),
         Stmt::Repeat(q(), vec![p(name("n")), l(0), Entry::X, Entry::X]),
+        // resetRandom must leave the values read from the device alone
+        Stmt::ResetRandom,
     ];
     let blocks = vec![Block::Loop("i".into(), q()), Block::While(un(UnOp::Not, name("DONE"))), Block::While(bin(BinOp::Lt, q(), lit(2)))];
     (atoms, blocks)
